@@ -323,9 +323,18 @@ theorem cfgH_ok (c : Nat) (s : Stanza) (neg : Bool) : (cfgH c s neg).Ok where
     simp only [cfgH, Bool.and_eq_true] at h
     exact gateOpen_enabled h.1
   wf_get st w := w.h c
-  wf_set_filter st p w := WF.updc' w c _ ((w.h c).filter p) (fun id => w.i c id) (w.t c)
-  wf_set_last st u t w :=
-    WF.updc' w c _ ((w.h c).of_maps (setLast_uid _ _ _) (setLast_key _ _ _)) (fun id => w.i c id) (w.t c)
+  wf_set_filter st p w := by
+    simp only [cfgH, cfgI, cfgT]
+    apply WF.updc' w c
+    · exact (w.h c).filter p
+    · intro id; exact w.i c id
+    · exact w.t c
+  wf_set_last st u t w := by
+    simp only [cfgH, cfgI, cfgT]
+    apply WF.updc' w c
+    · exact (w.h c).of_maps (setLast_uid _ _ _) (setLast_key _ _ _)
+    · intro id; exact w.i c id
+    · exact w.t c
 
 theorem cfgI_ok (c : Nat) (s : Stanza) (id : Str) (neg : Bool) : (cfgI c s id neg).Ok where
   get_set st l := by simp [cfgI]
@@ -343,13 +352,15 @@ theorem cfgI_ok (c : Nat) (s : Stanza) (id : Str) (neg : Bool) : (cfgI c s id ne
   pred_live now it h := gateOpen_enabled h
   wf_get st w := w.i c id
   wf_set_filter st p w := by
-    refine WF.updc' w c _ (w.h c) ?_ (w.t c)
+    simp only [cfgH, cfgI, cfgT]
+    apply WF.updc' w c (hh := w.h c) (ht := w.t c)
     intro id'
     by_cases h : id' = id
     · subst h; simp only [tabSet_same]; exact (w.i c id').filter p
     · simp only [tabSet_other _ _ _ _ h]; exact w.i c id'
   wf_set_last st u t w := by
-    refine WF.updc' w c _ (w.h c) ?_ (w.t c)
+    simp only [cfgH, cfgI, cfgT]
+    apply WF.updc' w c (hh := w.h c) (ht := w.t c)
     intro id'
     by_cases h : id' = id
     · subst h; simp only [tabSet_same]
@@ -373,9 +384,18 @@ theorem cfgT_ok (c : Nat) (neg : Bool) : (cfgT c neg).Ok where
     simp only [cfgT, Bool.and_eq_true] at h
     exact gateOpen_enabled h.1
   wf_get st w := w.t c
-  wf_set_filter st p w := WF.updc' w c _ (w.h c) (fun id => w.i c id) ((w.t c).filter p)
-  wf_set_last st u t w :=
-    WF.updc' w c _ (w.h c) (fun id => w.i c id) ((w.t c).of_maps (setLast_uid _ _ _) (setLast_key _ _ _))
+  wf_set_filter st p w := by
+    simp only [cfgH, cfgI, cfgT]
+    apply WF.updc' w c
+    · exact w.h c
+    · intro id; exact w.i c id
+    · exact (w.t c).filter p
+  wf_set_last st u t w := by
+    simp only [cfgH, cfgI, cfgT]
+    apply WF.updc' w c
+    · exact w.h c
+    · intro id; exact w.i c id
+    · exact (w.t c).of_maps (setLast_uid _ _ _) (setLast_key _ _ _)
 
 theorem cfgG_ok : cfgG.Ok where
   get_set st l := rfl
@@ -393,7 +413,41 @@ theorem cfgG_ok : cfgG.Ok where
   wf_set_filter st p w := ⟨w.h, w.i, w.t, w.g.filter p⟩
   wf_set_last st u t w := ⟨w.h, w.i, w.t, w.g.of_maps (setLast_uid _ _ _) (setLast_key _ _ _)⟩
 
+
 /-! ### the model's loops are `gloop` -/
+
+theorem cfgH_set (c : Nat) (s : Stanza) (neg : Bool) (st : St) (l : List Item) :
+    (cfgH c s neg).set st l = updConn st c (fun cn => { cn with handlers := l }) := rfl
+theorem cfgH_get (c : Nat) (s : Stanza) (neg : Bool) (st : St) :
+    (cfgH c s neg).get st = (st.conns c).handlers := rfl
+theorem cfgI_set (c : Nat) (s : Stanza) (id : Str) (neg : Bool) (st : St) (l : List Item) :
+    (cfgI c s id neg).set st l = updConn st c (fun cn => { cn with idTab := tabSet cn.idTab id l }) := rfl
+theorem cfgI_get (c : Nat) (s : Stanza) (id : Str) (neg : Bool) (st : St) :
+    (cfgI c s id neg).get st = (st.conns c).idTab id := rfl
+theorem cfgT_set (c : Nat) (neg : Bool) (st : St) (l : List Item) :
+    (cfgT c neg).set st l = updConn st c (fun cn => { cn with timed := l }) := rfl
+theorem cfgT_get (c : Nat) (neg : Bool) (st : St) : (cfgT c neg).get st = (st.conns c).timed := rfl
+
+theorem updConn_congr (st : St) (c : Nat) (f g : Conn → Conn) (h : f (st.conns c) = g (st.conns c)) :
+    updConn st c f = updConn st c g := by
+  unfold updConn
+  congr 1
+  funext i
+  by_cases hi : i = c
+  · subst hi; simp [h]
+  · simp [hi]
+
+theorem pre_nostamp (L : Cfg) (h : L.stamp = false) (st : St) (it : Item) : L.pre st it = st := by
+  simp [Cfg.pre, h]
+
+theorem pre_stamp (L : Cfg) (h : L.stamp = true) (st : St) (it : Item) :
+    L.pre st it = L.set st (setLast (L.get st) it.uid st.now) := by
+  simp [Cfg.pre, h]
+
+theorem invoke_inv {L : Cfg} (hL : L.Ok) (beh : Beh) (st : St) (cls : Cls) (c : Nat) (it : Item)
+    (name : Option Str) (h : L.inv st) : L.inv (invoke beh st cls c it name).1 := by
+  rw [invoke_eq]
+  exact applyActs_inv hL _ _ (hL.inv_withLog _ _ _ h)
 
 theorem stanzaLoop_eq (beh : Beh) (c : Nat) (s : Stanza) (neg : Bool) :
     ∀ (fuel : Nat) (st : St) (suffix : List Item), (st.conns c).negotiated = neg →
@@ -403,27 +457,173 @@ theorem stanzaLoop_eq (beh : Beh) (c : Nat) (s : Stanza) (neg : Bool) :
   | zero =>
     intro st suffix h
     unfold stanzaLoop gloop
-    simp only [h, cfgH]
+    rw [h]
+    rfl
   | succ fuel ih =>
     intro st suffix h
     unfold stanzaLoop gloop
-    simp only [h]
+    rw [h]
     show (match suffix.find? (fun it => gateOpen neg it && matchesC it.flt s) with
-          | none => _ | some it => _) = _
-    cases hf : suffix.find? (fun it => gateOpen neg it && matchesC it.flt s) with
-    | none => simp only [cfgH, hf]
+          | none => _ | some it => _) =
+         (match suffix.find? (fun it => gateOpen neg it && matchesC it.flt s) with
+          | none => _ | some it => _)
+    cases suffix.find? (fun it => gateOpen neg it && matchesC it.flt s) with
+    | none => rfl
     | some it =>
-      simp only [cfgH, hf, Cfg.pre]
-      cases ha : after ((invoke beh st Cls.stanza c it s.name).1.conns c).handlers it.uid with
-      | none => simp only [ha]
+      simp only []
+      rw [pre_nostamp _ rfl]
+      show (match after ((invoke beh st Cls.stanza c it s.name).1.conns c).handlers it.uid with
+            | none => _ | some rest => _) =
+           (match after ((invoke beh st Cls.stanza c it s.name).1.conns c).handlers it.uid with
+            | none => _ | some rest => _)
+      cases after ((invoke beh st Cls.stanza c it s.name).1.conns c).handlers it.uid with
+      | none => rfl
       | some rest =>
-        simp only [ha]
-        apply ih
-        have hn : ((invoke beh st Cls.stanza c it s.name).1.conns c).negotiated = neg := by
-          rw [invoke_eq]
-          exact applyActs_inv (cfgH_ok c s neg) _ _ h
+        simp only []
+        have e : (updConn (invoke beh st Cls.stanza c it s.name).1 c fun cn =>
+            { cn with handlers := removeUid cn.handlers it.uid }) =
+            (cfgH c s neg).set (invoke beh st Cls.stanza c it s.name).1
+              (removeUid ((cfgH c s neg).get (invoke beh st Cls.stanza c it s.name).1) it.uid) := by
+          rw [cfgH_set, cfgH_get]
+          apply updConn_congr
+          rfl
+        rw [e]
+        refine ih _ rest ?_
+        have hn := invoke_inv (cfgH_ok c s neg) beh st Cls.stanza c it s.name h
         split
         · exact hn
-        · simpa using hn
+        · exact (cfgH_ok c s neg).inv_set _ _ hn
+
+theorem idLoop_eq (beh : Beh) (c : Nat) (s : Stanza) (id : Str) (neg : Bool) :
+    ∀ (fuel : Nat) (st : St) (suffix : List Item), (st.conns c).negotiated = neg →
+      idLoop beh c s id fuel st suffix = gloop beh (cfgI c s id neg) fuel st suffix := by
+  intro fuel
+  induction fuel with
+  | zero =>
+    intro st suffix h
+    unfold idLoop gloop
+    rw [h]
+    rfl
+  | succ fuel ih =>
+    intro st suffix h
+    unfold idLoop gloop
+    rw [h]
+    show (match suffix.find? (gateOpen neg) with
+          | none => _ | some it => _) =
+         (match suffix.find? (gateOpen neg) with
+          | none => _ | some it => _)
+    cases suffix.find? (gateOpen neg) with
+    | none => rfl
+    | some it =>
+      simp only []
+      rw [pre_nostamp _ rfl]
+      show (match after (((invoke beh st Cls.stanza c it s.name).1.conns c).idTab id) it.uid with
+            | none => _ | some rest => _) =
+           (match after (((invoke beh st Cls.stanza c it s.name).1.conns c).idTab id) it.uid with
+            | none => _ | some rest => _)
+      cases after (((invoke beh st Cls.stanza c it s.name).1.conns c).idTab id) it.uid with
+      | none => rfl
+      | some rest =>
+        simp only []
+        have e : (updConn (invoke beh st Cls.stanza c it s.name).1 c fun cn =>
+            { cn with idTab := tabSet cn.idTab id (removeUid (cn.idTab id) it.uid) }) =
+            (cfgI c s id neg).set (invoke beh st Cls.stanza c it s.name).1
+              (removeUid ((cfgI c s id neg).get (invoke beh st Cls.stanza c it s.name).1) it.uid) := by
+          rw [cfgI_set, cfgI_get]
+          apply updConn_congr
+          rfl
+        rw [e]
+        refine ih _ rest ?_
+        have hn := invoke_inv (cfgI_ok c s id neg) beh st Cls.stanza c it s.name h
+        split
+        · exact hn
+        · exact (cfgI_ok c s id neg).inv_set _ _ hn
+
+theorem timedLoop_eq (beh : Beh) (c : Nat) (neg : Bool) :
+    ∀ (fuel : Nat) (st : St) (suffix : List Item), (st.conns c).negotiated = neg →
+      timedLoop beh c fuel st suffix = gloop beh (cfgT c neg) fuel st suffix := by
+  intro fuel
+  induction fuel with
+  | zero =>
+    intro st suffix h
+    unfold timedLoop gloop
+    rw [h]
+    rfl
+  | succ fuel ih =>
+    intro st suffix h
+    unfold timedLoop gloop
+    rw [h]
+    show (match suffix.find? (fun it => gateOpen neg it && due st.now it) with
+          | none => _ | some it => _) =
+         (match suffix.find? (fun it => gateOpen neg it && due st.now it) with
+          | none => _ | some it => _)
+    cases suffix.find? (fun it => gateOpen neg it && due st.now it) with
+    | none => rfl
+    | some it =>
+      simp only []
+      have e0 : (updConn st c fun cn => { cn with timed := setLast cn.timed it.uid st.now }) =
+          (cfgT c neg).pre st it := by
+        rw [pre_stamp _ rfl, cfgT_set, cfgT_get]
+        apply updConn_congr
+        rfl
+      rw [e0]
+      generalize hst0 : (cfgT c neg).pre st it = st0
+      have h0 : (st0.conns c).negotiated = neg := by
+        rw [← hst0, pre_stamp _ rfl]; exact (cfgT_ok c neg).inv_set _ _ h
+      show (match after ((invoke beh st0 Cls.timed c it none).1.conns c).timed it.uid with
+            | none => _ | some rest => _) =
+           (match after ((invoke beh st0 Cls.timed c it none).1.conns c).timed it.uid with
+            | none => _ | some rest => _)
+      cases after ((invoke beh st0 Cls.timed c it none).1.conns c).timed it.uid with
+      | none => rfl
+      | some rest =>
+        simp only []
+        have e : (updConn (invoke beh st0 Cls.timed c it none).1 c fun cn =>
+            { cn with timed := removeUid cn.timed it.uid }) =
+            (cfgT c neg).set (invoke beh st0 Cls.timed c it none).1
+              (removeUid ((cfgT c neg).get (invoke beh st0 Cls.timed c it none).1) it.uid) := by
+          rw [cfgT_set, cfgT_get]
+          apply updConn_congr
+          rfl
+        rw [e]
+        refine ih _ rest ?_
+        have hn := invoke_inv (cfgT_ok c neg) beh st0 Cls.timed c it none h0
+        split
+        · exact hn
+        · exact (cfgT_ok c neg).inv_set _ _ hn
+
+theorem globalLoop_eq (beh : Beh) :
+    ∀ (fuel : Nat) (st : St) (suffix : List Item),
+      globalLoop beh fuel st suffix = gloop beh cfgG fuel st suffix := by
+  intro fuel
+  induction fuel with
+  | zero =>
+    intro st suffix
+    unfold globalLoop gloop
+    rfl
+  | succ fuel ih =>
+    intro st suffix
+    unfold globalLoop gloop
+    show (match suffix.find? (due st.now) with
+          | none => _ | some it => _) =
+         (match suffix.find? (due st.now) with
+          | none => _ | some it => _)
+    cases suffix.find? (due st.now) with
+    | none => rfl
+    | some it =>
+      simp only []
+      have e0 : ({ st with gtimed := setLast st.gtimed it.uid st.now } : St) = cfgG.pre st it := by
+        rw [pre_stamp _ rfl]; rfl
+      rw [e0]
+      generalize cfgG.pre st it = st0
+      show (match after (invoke beh st0 Cls.global 0 it none).1.gtimed it.uid with
+            | none => _ | some rest => _) =
+           (match after (invoke beh st0 Cls.global 0 it none).1.gtimed it.uid with
+            | none => _ | some rest => _)
+      cases after (invoke beh st0 Cls.global 0 it none).1.gtimed it.uid with
+      | none => rfl
+      | some rest =>
+        simp only []
+        exact ih _ rest
 
 end Strophe.Lemmas.Handler
